@@ -125,6 +125,10 @@ def binary_leg(ucg, rng, n, rep, stats):
                 # a name that is not a ucg symbol (leading `_` or digit) is selected in quoted form
                 sel = target if _re.fullmatch(r"[A-Za-z][A-Za-z0-9_-]*", target) and rng.random() < 0.8 \
                     else '"%s"' % target
+                # other reads of set variables in the same file must not disturb this one
+                for k, other in enumerate(rng.sample(names, min(len(names), rng.randint(0, 2)))):
+                    osel = other if _re.fullmatch(r"[A-Za-z][A-Za-z0-9_-]*", other) else '"%s"' % other
+                    f.write("let pre%d = env.%s;\n" % (k, osel))
                 f.write("out json {v = env.%s};\n" % sel)
             full = dict(env)
             full["HOME"] = home
